@@ -71,6 +71,7 @@ class St(object):
         self.UI, self.MI = a['_input_dependencies'].attrs['_unmet'], a['_input_dependencies'].attrs['_met']
         self.refused = a['_refused_input']
         self.C = ghost['C']
+        self.A = ghost.get('A') or ZSet(NAME, z3.K(NAME, z3.BoolVal(False)), 'A')
         self.wd, self.wk = ghost['wd'], ghost['wk']
         self.R = ghost.get('R') or ZBag(OBJ, name='R')
         self.inflight = ghost.get('inflight')
@@ -117,6 +118,7 @@ def invariant(s):
         ('required-lines-of-loaded-forms-are-scheduled', z3.ForAll([L], z3.Implies(z3.And(s.F.has[form_part(L)], REQ_LINE(L)), s.S.mem[L]))),
         ('tracker-lists-nonempty-F', z3.ForAll([Dn], z3.Implies(s.UF.has[Dn], s.UF.ln[Dn] >= 1))),
         ('tracker-lists-nonempty-I', z3.ForAll([Dn], z3.Implies(s.UI.has[Dn], s.UI.ln[Dn] >= 1))),
+        ('every-answer-given-is-stored', z3.ForAll([L], z3.Implies(s.A.mem[L], s.C.mem[L]))),
     ]
 
 
@@ -127,6 +129,7 @@ def grows(s0, s, attempted=None):
     return [
         ('values-only-grow', z3.ForAll([L], z3.Implies(s0.V.has[L], z3.And(s.V.has[L], same(L))))),
         ('inputs-only-grow', z3.ForAll([L], z3.Implies(s0.C.mem[L], s.C.mem[L]))),
+        ('answers-given-only-grow', z3.ForAll([L], z3.Implies(s0.A.mem[L], s.A.mem[L]))),
         ('scheduled-only-grows', z3.ForAll([L], z3.Implies(s0.S.mem[L], s.S.mem[L]))),
         ('field-map-only-grows', z3.ForAll([L], z3.Implies(s0.FM.has[L], z3.And(s.FM.has[L], s.FM.val[L] == s0.FM.val[L])))),
         ('input-map-only-grows', z3.ForAll([L], z3.Implies(s0.IM.has[L], s.IM.has[L]))),
@@ -173,6 +176,7 @@ class SolverSpec(corevc.Spec):
         a['_solved'] = False
         me = AObj(solver.Solver, a, name='solver')
         it.ghost['C'] = ZSet.havoc(NAME, 'C')
+        it.ghost['A'] = ZSet.havoc(NAME, 'A')      # ghost: inputs the user has answered (prompt returned supplied with a valid string)
         it.ghost['wd'] = fresh('wd', z3.ArraySort(NAME, NAME))
         it.ghost['wk'] = fresh('wk', z3.ArraySort(NAME, NAME))
         it.ghost['R'] = ZBag(OBJ, name='R')
@@ -209,6 +213,7 @@ class SolverSpec(corevc.Spec):
         if self.has_prompt:
             a['_refused_input'] = SV('bool', fresh('refused', z3.BoolSort()))
         it.ghost['C'] = ZSet.havoc(NAME, 'C')
+        it.ghost['A'] = ZSet.havoc(NAME, 'A')
         it.ghost['wd'] = fresh('wd', z3.ArraySort(NAME, NAME))
         it.ghost['wk'] = fresh('wk', z3.ArraySort(NAME, NAME))
         # frame facts relative to the state at loop entry (everything only grows)
@@ -307,6 +312,13 @@ class SolverSpec(corevc.Spec):
             it.oblige(f'prompt@{it.site(node)}/needed-by-is-the-list-of-lines-waiting-on-that-input',
                       z3.And(z3.BoolVal(bool(is_entry)), (nb.k == k) if is_entry else z3.BoolVal(False)))
             it.ghost['prompts'] = it.ghost.get('prompts', []) + [(k, value, supplied)]
+            # A-PROMPT: the callback either raises (input ended, a signal, ...) or returns; an answer counts as given
+            # when it is returned as supplied and passes the input's validator (C11 proves prompt_input returns only such answers)
+            if it.run.branch(fresh('prompt_raises', z3.BoolSort()), where=f'prompt-raises@{node.lineno}'):
+                raise Raised(RuntimeError('exception raised by the prompt callback (input ended, interrupt, ...)'), node)
+            A = s.A
+            given = z3.And(to_term(supplied), valid_in(s.IM.val[k], to_term(value)))
+            it.ghost['A'] = ZSet(NAME, z3.Store(A.mem, k, z3.Or(A.mem[k], given)), 'A')
             return (value, supplied)
         return NotImplemented
 
@@ -501,6 +513,7 @@ def attempt_field_contract(spec):
         it.run.fact(z3.ForAll([x], s1.Q.cnt[x] >= pre.Q.cnt[x]))
         it.run.fact(z3.And(s1.MI.size == pre.MI.size, z3.ForAll([L], s1.MI.cnt[L] == pre.MI.cnt[L])))
         it.run.fact(s1.C.mem == pre.C.mem)
+        it.run.fact(s1.A.mem == pre.A.mem)
         if isinstance(pre.refused, SV):
             it.run.fact(to_term(s1.refused) == to_term(pre.refused))
         it.ghost['attempts'] = it.ghost.get('attempts', 0) + 1
